@@ -802,6 +802,26 @@ def _literal_components(run, ms: Func, cfg, roles: _Roles, other: str, ret: ast.
                   ms, ret.value, witness=['component %d = %r' % (idx + 1, val)], runtime_witness=wit)
 
 
+def _is_real_score(e) -> bool:
+    """a tuple display with at least one computed component (the sentinel is a constant or an all-literal tuple)"""
+    return isinstance(e, ast.Tuple) and not all(_is_num_literal(x) for x in e.elts)
+
+
+def _score_returns(ms: Func) -> Tuple[List[ast.Return], List[ast.Return]]:
+    """(returns of a real score, not-matching returns) of match_score"""
+    real, sentinels = [], []
+    for r in _returns(ms):
+        if r.value is None:
+            raise UnknownIdiom('match_score: bare return')
+        if _is_real_score(r.value):
+            real.append(r)
+        else:
+            sentinels.append(r)
+    if not real:
+        raise AnchorError('match_score: no return of a score tuple found')
+    return real, sentinels
+
+
 def r1_score_order(run):
     p = run.project
     ms = p.func(MEDIATYPES + '._MediaRange.match_score')
@@ -814,16 +834,7 @@ def r1_score_order(run):
         raise UnknownIdiom('match_score takes %d parameters' % len(params))
     other = params[0]
 
-    real, sentinels = [], []
-    for r in _returns(ms):
-        if r.value is None:
-            raise UnknownIdiom('match_score: bare return')
-        if isinstance(r.value, ast.Tuple) and not all(_is_num_literal(e) for e in r.value.elts):
-            real.append(r)
-        else:
-            sentinels.append(r)
-    if not real:
-        raise AnchorError('match_score: no return of a score tuple found')
+    real, sentinels = _score_returns(ms)
     for r in real:
         if len(r.value.elts) != 5:
             raise UnknownIdiom('match_score returns a %d-tuple' % len(r.value.elts))
@@ -1052,7 +1063,10 @@ def r1_score_order(run):
     best = _expand_name(q, v.value)
     if not (isinstance(best, ast.Call) and p.resolve_callable(q, best.func) in ('builtins.max', 'builtins.min', 'builtins.sorted')):
         raise UnknownIdiom('quality(): best score is %s' % short(best, 80))
-    is_max = p.resolve_callable(q, best.func) == 'builtins.max' and not best.keywords and len(best.args) == 1
+    # `default=<the not-matching sentinel>` only names the answer for an empty sequence of ranges - harmless; any other
+    # keyword (key=...) changes the order
+    kw_ok = all(k.arg == 'default' and p.fold(q.module, k.value, None, q) in {sv for sv, _ in sent_vals} for k in best.keywords)
+    is_max = p.resolve_callable(q, best.func) == 'builtins.max' and kw_ok and len(best.args) == 1
     gen = best.args[0] if best.args else None
     ok_gen = False
     if isinstance(gen, (ast.GeneratorExp, ast.ListComp)) and len(gen.generators) == 1:
@@ -2169,6 +2183,74 @@ def _guard_verdict(cfg, nid: int, atom, want: bool) -> Tuple[str, Optional[objec
     return 'absent', None
 
 
+UNSUPPORTED = 'falcon.errors.HTTPUnsupportedMediaType'
+BRIDGE = 'falcon.media.handlers._best_match'
+
+
+def _handler_text(h: ast.ExceptHandler) -> str:
+    return 'except %s' % unparse(h.type) if h.type is not None else 'except'
+
+
+def _resolver_escapes(run, p, res: Func, best_calls):
+    """E5 summary of the resolver closure (through the module-level bridge
+    helper and mediatypes.best_match) must be a subset of
+    {HTTPUnsupportedMediaType}.  The candidates handed to best_match() are the
+    REGISTERED keys: a key that is not type/subtype makes it raise
+    InvalidMediaType, a malformed requested type InvalidMediaRange - both are
+    ValueErrors and both have to end as "no match" (-> 415), so catching only
+    one of the two classes is a violation.  Any handler set that catches them
+    (ValueError, both classes, Exception, a bare except) passes.  A class that
+    escapes through the bridge helper is reported there, on the handler
+    clauses that let it through (or on the unprotected call); anything else on
+    the construct of the resolver it comes from."""
+    E = _Escape(p)
+    summ = E.summary(res)
+    unresolved = sorted(k for k in summ if k.startswith('?'))
+    if unresolved:
+        raise UnknownIdiom('resolver: raise of %s cannot be resolved to a class' % unresolved[0][1:])
+    bad = {k: ch for k, ch in summ.items() if p.is_subclass(k, UNSUPPORTED) is not True}
+    blamed: Set[str] = set()
+    for c, t in best_calls:
+        if t.qual != BRIDGE:
+            continue
+        run.use(t)
+        tp = enclosing_map(t.node)
+        inner = [x for x in walk_self(t.node) if isinstance(x, ast.Call) and isinstance(p.resolve_callable(t, x.func), Func)
+                 and p.resolve_callable(t, x.func).qual == MEDIATYPES + '.best_match']
+        ic = single(inner, 'call of mediatypes.best_match', t.qual)
+        raised = E.summary(p.resolve_callable(t, ic.func))
+        through = {k: ch for k, ch in E.summary(t).items() if k in bad}
+        blamed |= set(through)
+        # the handler clauses around the call (innermost try first)
+        clauses, cur, child = [], tp.get(id(ic)), ic
+        while cur is not None and cur is not t.node:
+            if isinstance(cur, ast.Try) and any(child is s or _contains(s, child) for s in cur.body):
+                clauses += cur.handlers
+            child, cur = cur, tp.get(id(cur))
+        construct = ' / '.join(_handler_text(h) for h in clauses) if clauses else ic
+        what = '%s() turns every value error of mediatypes.best_match() - InvalidMediaType for a malformed registered key, ' \
+               'InvalidMediaRange for a malformed requested type, both ValueErrors - into "no match", so that the resolver answers ' \
+               'with a handler or a 415 (best_match() may raise: %s)' % (t.name, ', '.join(k.rsplit('.', 1)[-1] for k in sorted(raised)) or 'nothing')
+        if not through:
+            run.ok(what, t.loc(clauses[0] if clauses else ic), construct)
+            continue
+        wit = []
+        for k, ch in sorted(through.items()):
+            wit += ['%s escapes:' % k] + _chain(ch)
+        run.fail(what, t, construct, where=t.loc(clauses[0] if clauses else ic), witness=wit,
+                 runtime_witness="handlers.update({'yaml': h}) (a key without '/'), then a request whose Content-Type is not an exact key "
+                                 "('application/json; charset=utf-8'): %s leaves _resolve() and the request answers 500 instead of 415"
+                                 % ' / '.join(k.rsplit('.', 1)[-1] for k in sorted(through)))
+    rest = {k: ch for k, ch in bad.items() if k not in blamed}
+    if not bad:
+        run.ok('resolver: only HTTPUnsupportedMediaType leaves the resolver (E5 summary: %s)' % (sorted(summ) or 'nothing'), res.loc())
+    for k, ch in sorted(rest.items()):
+        where, text = ch[0]
+        run.fail('resolver: %s may leave the resolver - the answer is a handler or a 415' % k, res, text.split('  [')[0], where=where,
+                 witness=_chain(ch), runtime_witness='a request with that content type answers 500 instead of 415')
+    run.extra['c11_resolver_escape'] = {'summary': sorted(summ), 'sites': E.sites_seen, 'calls_resolved': E.calls_resolved}
+
+
 def r4_resolution(run):
     p = run.project
     cr = p.func(HANDLERS + '._create_resolver')
@@ -2212,6 +2294,9 @@ def r4_resolution(run):
         raise AnchorError('resolver: exact lookup self.data[<media type>] not found')
     if not B:
         raise AnchorError('resolver: best-match call not found')
+
+    # (e) "the designated handler or a 415": nothing but HTTPUnsupportedMediaType leaves the resolver
+    _resolver_escapes(run, p, res, [best_call(b) for b in B])
 
     # (a) */* or empty -> default before any use of the requested type
     use_ids = {n.id for n in L} | {n.id for n in B}
